@@ -56,7 +56,7 @@ class Case final : public sim::CaseBase {
     for (int w = 0; w < k; ++w) {
       const bool mostly_writer = g.Draw(3) == 0;
       std::vector<Round> rs;
-      const int n = 1 + static_cast<int>(g.Draw(3));
+      const int n = 1 + static_cast<int>(g.Draw(sim::Thorough() ? 5 : 3));
       for (int r = 0; r < n; ++r) {
         Round rd;
         int f = static_cast<int>(g.Draw(kFormCount));
